@@ -262,7 +262,65 @@ fn early_drops(out: &mut Out, label: &str, data: &Rc<Vec<u8>>, cap: usize) {
 	}
 }
 
+/// Live heap bytes before and after a YAML translation / detection / early
+/// drop of the chunker are equal: nothing the binding allocated stays behind
+/// (documents with `%YAML` / `%TAG` directives, anchors, tags, errors, faults).
+fn no_leak_statement(out: &mut Out) {
+	let inputs: Vec<&[u8]> = vec![
+		b"a: 1\n",
+		b"%YAML 1.2\n---\na: 1\n",
+		b"%YAML 1.1\n---\n- x\n...\n%YAML 1.2\n---\n- y\n",
+		b"%TAG !e! tag:example.com,2000:app/\n---\n- !e!foo \"bar\"\n",
+		b"%TAG ! tag:clarkevans.com,2002:\n%YAML 1.2\n--- !shape\n- a\n",
+		b"--- &a [1, 2]\n--- *a\n",
+		b"a: &x {k: !!str 1}\nb: *x\n---\n- [\n",
+		b"%YAML 1.2\n---\n? [1\n",
+		b"%FOO bar\n---\na: 1\n",
+	];
+	for input in inputs {
+		for mode in 0..5 {
+			let run = |input: &[u8]| {
+				let mut w = crate::util::FaultWriter::new(None, vec![]);
+				match mode {
+					0 => {
+						let _ = xt::translate_reader(crate::util::SchedReader::new(input, vec![3], true, None), Some(xt::Format::Yaml), xt::Format::Json, &mut w);
+					}
+					1 => {
+						let _ = xt::translate_reader(crate::util::SchedReader::new(input, vec![], true, None), None, xt::Format::Msgpack, &mut w);
+					}
+					2 => {
+						let _ = xt::verif::detect_reader(crate::util::SchedReader::new(input, vec![1], true, None));
+					}
+					3 => {
+						// early drop after the first document
+						let mut it = xt::verif::yaml_chunker(Box::new(crate::util::SchedReader::new(input, vec![], true, None)));
+						let _ = it.next();
+					}
+					_ => {
+						// reader failing half way
+						let _ = xt::translate_reader(crate::util::SchedReader::new(input, vec![2], true, Some(input.len() / 2)), Some(xt::Format::Yaml), xt::Format::Yaml, &mut w);
+					}
+				}
+			};
+			// Warm up once (lazy statics), then measure.
+			run(input);
+			let before = crate::alloc::live();
+			run(input);
+			let after = crate::alloc::live();
+			out.eval("no_leak", &format!("{}{mode}", crate::util::hex(input)), true);
+			if after != before {
+				out.fail(
+					"no_leak",
+					"",
+					format!("YAML input {:?} (mode {mode}: 0 explicit reader, 1 detected, 2 detection only, 3 chunker dropped after one document, 4 reader fault): {} bytes still allocated afterwards", String::from_utf8_lossy(input), after as i64 - before as i64),
+				);
+			}
+		}
+	}
+}
+
 pub fn run(out: &mut Out, rng: &mut Rng, thorough: bool) {
+	no_leak_statement(out);
 	let items = corpus::build(rng, if thorough { 60 } else { 12 }, thorough);
 	// Every item is taken as YAML; items that are text are also re-encoded.
 	let mut inputs: Vec<(String, Rc<Vec<u8>>)> = vec![];
